@@ -278,7 +278,7 @@ PROPS["C13"] = dict(units=c13_units, bounds_text="every day (and time of day) of
 
 
 def c01_units(tier, seed):
-    ys = year_set(tier, seed, thin=3)
+    ys = year_set(tier, seed, thin=10)
     us = per_year("calendar.VH_C01_RoundTrip", "C01a", ys)
     us += per_year("calendar.VH_C01_Position", "C01b", ys)
     # stepping is the expensive harness (30-60 s per unit): thorough takes the full quick year set with the larger step bound
